@@ -9,6 +9,15 @@ const MAX_ROW: u32 = 1_048_576;
 const MAX_COL: u32 = 16_384;
 /// content tokens from here on are formula cells (`A1+<tok>`), below they are values (`v<tok>`)
 const FORMULA_TOK: u32 = 100;
+/// a cell's content token in the reference grid and in the model is `value token + LINK_BASE * hyperlink token`
+/// (`Umya/Model/SheetA.lean` `pack`); hyperlink token h ≥ 1 is the url `h<h>`, 0 = no hyperlink
+const LINK_BASE: u32 = 1000;
+fn link_tok(c: &umya_spreadsheet::structs::Cell) -> u32 {
+    match c.get_hyperlink() {
+        None => 0,
+        Some(h) => h.get_url().strip_prefix('h').and_then(|x| x.parse().ok()).unwrap_or(999),
+    }
+}
 fn formula_text(tok: u32) -> String {
     format!("A1+{}", tok)
 }
@@ -132,7 +141,12 @@ pub fn dump_sheet(ws: &Worksheet) -> String {
         })
         .collect();
     let af = ws.get_auto_filter().map(|a| a.get_range().get_range()).unwrap_or("-".to_string());
-    format!("{};m={};cm={};cf={};af={}", c10::dump(ws), m.join(","), cm.join(","), cf.join(","), af)
+    // hyperlink of every cell that has one, in (row, col) order: row.col.token
+    let mut hl: Vec<(u32, u32, u32)> =
+        ws.get_collection_to_hashmap().iter().filter(|(_, c)| c.get_hyperlink().is_some()).map(|(k, c)| (k.0, k.1, link_tok(c))).collect();
+    hl.sort();
+    let hl: Vec<String> = hl.iter().map(|(r, c, h)| format!("{}.{}.{}", r, c, h)).collect();
+    format!("{};m={};cm={};cf={};af={};hl={}", c10::dump(ws), m.join(","), cm.join(","), cf.join(","), af, hl.join(","))
 }
 
 pub fn dump_book(book: &Spreadsheet, k: usize) -> String {
@@ -143,7 +157,7 @@ pub fn dump_book(book: &Spreadsheet, k: usize) -> String {
 fn view_of_impl(ws: &Worksheet) -> RefSheet {
     let mut r = RefSheet::default();
     for (k, c) in ws.get_collection_to_hashmap().iter() {
-        r.cells.insert(*k, (c10::tok_of_cell(c), c10::tok_of_style(c.get_style())));
+        r.cells.insert(*k, (c10::tok_of_cell(c) + LINK_BASE * link_tok(c), c10::tok_of_style(c.get_style())));
     }
     let corners = |rg: &umya_spreadsheet::structs::Range| {
         (
@@ -201,7 +215,12 @@ pub fn exec(out: &mut Out, st: &mut State, line: &str) -> (String, bool) {
         "cell" => match a[3] {
             "setval" => {
                 let e = refs[i].cells.entry((n(5), n(4))).or_insert((0, u32::MAX));
-                e.0 = n(6);
+                // set_value keeps the cell's hyperlink
+                e.0 = n(6) + LINK_BASE * (e.0 / LINK_BASE);
+            }
+            "setcellh" => {
+                // set_cell of a cell with a hyperlink: value, style and hyperlink are replaced together
+                refs[i].cells.insert((n(5), n(4)), (n(6) + LINK_BASE * n(8), n(7)));
             }
             "setcell" => {
                 refs[i].cells.insert((n(5), n(4)), (n(6), n(7)));
@@ -212,6 +231,20 @@ pub fn exec(out: &mut Out, st: &mut State, line: &str) -> (String, bool) {
             "setstyle" => {
                 let e = refs[i].cells.entry((n(5), n(4))).or_insert((0, 0));
                 e.1 = n(6);
+            }
+            "move" | "copy"
+                if {
+                    let (rs, re, cs, ce) = (n(4) as i64, n(5) as i64, n(6) as i64, n(7) as i64);
+                    let dr: i64 = a[8].parse().unwrap();
+                    let dc: i64 = a[9].parse().unwrap();
+                    !(1 <= rs && rs <= re && re <= MAX_ROW as i64 && 1 <= cs && cs <= ce && ce <= MAX_COL as i64
+                        && 1 <= rs + dr && re + dr <= MAX_ROW as i64 && 1 <= cs + dc && ce + dc <= MAX_COL as i64)
+                } =>
+            {
+                // arguments outside InRange (image off the grid, inverted or empty rectangle): no reference; the model says
+                // exactly when the code panics (C07_move_copy_panic_iff) and what it returns otherwise; the case ends after it
+                cause = "move-copy-out-of-range";
+                ref_defined = false;
             }
             "move" | "copy" => {
                 let (rs, re, cs, ce) = (n(4), n(5), n(6), n(7));
@@ -234,14 +267,18 @@ pub fn exec(out: &mut Out, st: &mut State, line: &str) -> (String, bool) {
                     let mut blank_over_occupied_inside = false;
                     let mut any_src = false;
                     let mut formula = false;
+                    let mut hyperlink = false;
                     for r in rs..=re {
                         for c in cs..=ce {
                             let (r2, c2) = (r as i64 + dr, c as i64 + dc);
                             match pre.get(&(r, c)) {
                                 Some(v) => {
                                     any_src = true;
-                                    if v.0 >= FORMULA_TOK {
+                                    if v.0 % LINK_BASE >= FORMULA_TOK {
                                         formula = true;
+                                    }
+                                    if v.0 / LINK_BASE != 0 {
+                                        hyperlink = true;
                                     }
                                 }
                                 None => {
@@ -266,6 +303,9 @@ pub fn exec(out: &mut Out, st: &mut State, line: &str) -> (String, bool) {
                     out.count(&format!("mc.{}.{}", w, if any_src { "source-has-cells" } else { "source-all-blank" }));
                     if formula {
                         out.count(&format!("mc.{}.formula-in-rectangle", w));
+                    }
+                    if hyperlink {
+                        out.count(&format!("mc.{}.hyperlink-in-rectangle", w));
                     }
                     if rs as i64 + dr == 1 || cs as i64 + dc == 1 {
                         out.count(&format!("mc.{}.destination-at-edge.row1-or-col1", w));
@@ -354,7 +394,7 @@ pub fn exec(out: &mut Out, st: &mut State, line: &str) -> (String, bool) {
                     "setval" => {
                         ws.get_cell_mut((nn(1), nn(2))).set_value(format!("v{}", nn(3)));
                     }
-                    "setcell" => {
+                    "setcell" | "setcellh" => {
                         let mut c = umya_spreadsheet::structs::Cell::default();
                         c.get_coordinate_mut().set_col_num(nn(1)).set_row_num(nn(2));
                         if nn(3) >= FORMULA_TOK {
@@ -365,6 +405,9 @@ pub fn exec(out: &mut Out, st: &mut State, line: &str) -> (String, bool) {
                         }
                         if nn(4) != 0 {
                             c.set_style(c10::style_of(nn(4)));
+                        }
+                        if rest[0] == "setcellh" && nn(5) != 0 {
+                            c.get_hyperlink_mut().set_url(format!("h{}", nn(5)));
                         }
                         ws.set_cell(c);
                     }
@@ -458,6 +501,11 @@ pub fn exec(out: &mut Out, st: &mut State, line: &str) -> (String, bool) {
         }
     });
     match r {
+        Err(_) if cause == "move-copy-out-of-range" => {
+            st.dead = true;
+            out.count("move-copy-out-of-range.panic");
+            ("panic".into(), false)
+        }
         Err(_) => {
             st.dead = true;
             // in-range arguments must not panic
@@ -491,6 +539,10 @@ pub fn exec(out: &mut Out, st: &mut State, line: &str) -> (String, bool) {
                     None => out.oracle_ok(),
                 }
             }
+            if cause == "move-copy-out-of-range" {
+                out.count("move-copy-out-of-range.returned");
+                st.dead = true;
+            }
             if ref_defined {
                 st.refs = refs;
                 // oracle: every sheet equals its reference (cells as content; annotations exactly)
@@ -505,6 +557,9 @@ pub fn exec(out: &mut Out, st: &mut State, line: &str) -> (String, bool) {
                         if vv.1 == u32::MAX {
                             vv.1 = got_cells.get(kk).map(|x| x.1).unwrap_or(0);
                         }
+                    }
+                    if got_cells.values().any(|x| x.0 / LINK_BASE != 0) {
+                        out.count("hl.sheet-with-hyperlinks-compared");
                     }
                     if got_cells != want_cells {
                         bad = Some(format!("sheet {} cells {:?} != reference {:?}", j, got_cells, want_cells));
@@ -565,6 +620,11 @@ fn gen_case(rng: &mut Rng, v: &mut Vec<String>, near_limit: bool) {
         for _ in 0..rng.range(2, 6) {
             let (c, r) = (small(rng), small(rng));
             placed[i as usize].push((r, c));
+            if rng.chance(1, 3) {
+                // a cell with a hyperlink (token 1..3): it must travel with the cell
+                v.push(format!("c07 cell {} setcellh {} {} {} {} {}", i, base_c + c, base_r + r, content_tok(rng), rng.below(3), rng.range(1, 3)));
+                continue;
+            }
             v.push(format!("c07 cell {} setcell {} {} {} {}", i, base_c + c, base_r + r, content_tok(rng), rng.below(3)));
         }
         if rng.chance(2, 3) {
@@ -602,7 +662,12 @@ fn gen_case(rng: &mut Rng, v: &mut Vec<String>, near_limit: bool) {
             12..=17 => {
                 let (c, r) = (small(rng), small(rng));
                 placed[i as usize].push((r, c));
-                format!("c07 cell {} setcell {} {} {} {}", i, base_c + c, base_r + r, content_tok(rng), rng.below(3))
+                if rng.chance(1, 3) {
+                    // hyperlink token 0 = a set_cell whose hyperlink is None over whatever was there
+                    format!("c07 cell {} setcellh {} {} {} {} {}", i, base_c + c, base_r + r, content_tok(rng), rng.below(3), rng.below(4))
+                } else {
+                    format!("c07 cell {} setcell {} {} {} {}", i, base_c + c, base_r + r, content_tok(rng), rng.below(3))
+                }
             }
             18..=23 => format!("c07 cell {} remove {} {}", i, base_c + small(rng), base_r + small(rng)),
             24..=27 => format!("c07 cell {} setstyle {} {} {}", i, base_c + small(rng), base_r + small(rng), rng.range(1, 4)),
@@ -665,7 +730,20 @@ fn gen_case(rng: &mut Rng, v: &mut Vec<String>, near_limit: bool) {
                     format!("c07 {} {} {} {} 0 0", w.1, i, base_c + p, nn)
                 }
             }
-            81..=85 => {
+            81 => {
+                // out-of-range move / copy: image off the grid, inverted rectangle (either axis), empty column span
+                let (r, c) = (small(rng), small(rng));
+                let (re, ce) = (r + rng.below(3) as u32, c + rng.below(3) as u32);
+                let w = if rng.chance(1, 2) { "move" } else { "copy" };
+                match rng.below(5) {
+                    0 => format!("c07 cell {} {} {} {} {} {} {} 0", i, w, base_r + r, base_r + re, base_c + c, base_c + ce, if near_limit { 13 + (re - r) as i64 } else { -(r as i64) - rng.below(2) as i64 }),
+                    1 => format!("c07 cell {} {} {} {} {} {} 0 {}", i, w, base_r + r, base_r + re, base_c + c, base_c + ce, if near_limit { 13 + (ce - c) as i64 } else { -(c as i64) - rng.below(2) as i64 }),
+                    2 => format!("c07 cell {} {} {} {} {} {} 1 1", i, w, base_r + r + 1, base_r + r, base_c + c, base_c + ce),
+                    3 => format!("c07 cell {} {} {} {} {} {} 1 1", i, w, base_r + r, base_r + r, base_c + c + 1, base_c + c),
+                    _ => format!("c07 cell {} {} {} {} {} {} 1 1", i, w, base_r + r, base_r + r + 1, base_c + c + 1, base_c + c),
+                }
+            }
+            82..=85 => {
                 let (r, c) = (small(rng), small(rng));
                 format!("c07 merge {} {} {} {} {}", i, base_r + r, base_r + r + rng.below(3) as u32, base_c + c, base_c + c + rng.range(0, 2) as u32)
             }
